@@ -240,7 +240,7 @@ UNIT = {
  'native': {'tests': [
     {'name': 'newest_mention_wins_end_to_end', 'code': 'e2e_docs_bounded.rs', 'place': 'pdf/tests/verif_e2e_c02.rs', 'filter': 'c02_',
      'fn': 'read_xref_table_and_trailer', 'props': ['C02', 'C18'], 'tier': 'quick', 'timeout': 900,
-     'bound': 'generated files (hand-written bytes, no crate writer): base body of 6 objects (catalog, page tree, page, content stream, integer, string) + 0..=2 incremental updates of kind {Redef 3 4 5 6 | Free5 (free entry gen 1) + 6 | Reuse5 (gen 1, after Free5) | AddGap (new 9, 11; 7, 8, 10 undefined) | Pack (5, 6 inside a new object stream, xref-stream sections only)}: all 18 well-formed kind sequences; every section in one of 7 formats {classic maximal subsections | classic one subsection per entry | xref stream /W [1 2 1] maximal /Index runs | /W [1 3 2] one run per entry | /W [1 2 1] split | /W [1 3 2] maximal | /W [0 2 1] without type field (update sections with in-use uncompressed entries only)}; xref-stream base also with 5, 6 in an object stream and with /Index omitted; /Prev chained, own /ID per section: 5904 files, every number 0 ..= /Size + 2 of each. Hybrid-reference files (/XRefStm) are NOT in the universe (candidate finding units/xrefchain/findings/hybrid_xrefstm_ignored.md), encrypted files neither.',
+     'bound': 'generated files (hand-written bytes, no crate writer): base body of 6 objects (catalog, page tree, page, content stream, integer, string) + 0..=2 incremental updates of kind {Redef 3 4 5 6 | Free5 (free entry gen 1) + 6 | Reuse5 (gen 1, after Free5) | AddGap (new 9, 11; 7, 8, 10 undefined) | Pack (5, 6 inside a new object stream, xref-stream sections only)}: all 18 well-formed kind sequences; every section in one of 7 formats {classic maximal subsections | classic one subsection per entry | xref stream /W [1 2 1] maximal /Index runs | /W [1 3 2] one run per entry | /W [1 2 1] split | /W [1 3 2] maximal | /W [0 2 1] without type field (update sections with in-use uncompressed entries only)}; xref-stream base also with 5, 6 in an object stream and with /Index omitted; /Prev chained, own /ID per section: 5904 files, every number 0 ..= /Size + 2 of each. Hybrid-reference files (/XRefStm) are NOT in the universe (observation outside the statement of C02, units/xrefchain/findings/hybrid_xrefstm_ignored.md), encrypted files neither.',
      'contract': 'the file loads (FileOptions::uncached().load); for every object number n in 0 ..= /Size + 2: if the newest section that mentions n has it in use '
                  '(directly or in an object stream) resolve, the typed get and the Option reader of the fitting type give exactly the value written there '
                  '(streams: dictionary, raw and decoded data); if it frees n, or no section mentions n, or n >= /Size: resolve is a missing-object error and the '
